@@ -5,6 +5,7 @@ import (
 	"errors"
 	"fmt"
 	"strings"
+	"sync/atomic"
 	"time"
 
 	bigbuff "github.com/joeycumines/go-bigbuff"
@@ -26,8 +27,10 @@ func execChannel(t *trace, script []string) {
 		return
 	}
 	empty := make(chan struct{}, 4)
+	var polls atomic.Int64 // number of polls (critical sections of Get) that found nothing
 	rm := hk.On(func(e hk.Event) {
 		if e.Name == "chan.poll.empty" && e.Obj == any(c) {
+			polls.Add(1)
 			select {
 			case empty <- struct{}{}:
 			default:
@@ -35,6 +38,38 @@ func execChannel(t *trace, script []string) {
 		}
 	})
 	defer rm()
+	// a Get left blocked by "bget" (it keeps polling while the following operations run)
+	type res struct {
+		v   interface{}
+		err error
+	}
+	var (
+		pendCh     chan res
+		pendCancel context.CancelFunc
+	)
+	// after an operation: has the blocked Get returned?  It is still blocked only if two further polls found nothing
+	// (the second one began after the operation had completed).
+	pendResult := func() string {
+		base := polls.Load()
+		deadline := time.After(stepTimeout)
+		for {
+			select {
+			case out := <-pendCh:
+				pendCh = nil
+				pendCancel()
+				if out.err == nil {
+					return fmt.Sprintf("val %d", out.v.(int))
+				}
+				return canonErr(out.err)
+			case <-deadline:
+				return "timeout"
+			case <-time.After(200 * time.Microsecond):
+				if polls.Load() >= base+2 {
+					return "pending"
+				}
+			}
+		}
+	}
 	srcClosed := false
 	state := func() string {
 		b, r := bigbuff.VerifChannelState(c)
@@ -58,15 +93,40 @@ func execChannel(t *trace, script []string) {
 				srcClosed = true
 				r = "ok"
 			}
-		case "get":
+		case "bget":
+			// a Get that is left blocked (polling) while the next operations run; resolved by "bgetres" lines
+			if pendCh != nil {
+				break
+			}
 			for len(empty) > 0 {
 				<-empty
 			}
 			ctx, cancel := context.WithCancel(context.Background())
-			type res struct {
-				v   interface{}
-				err error
+			ch := make(chan res, 1)
+			go func() { v, err := c.Get(ctx); ch <- res{v, err} }()
+			select {
+			case out := <-ch:
+				cancel()
+				if out.err == nil {
+					r = fmt.Sprintf("val %d", out.v.(int))
+				} else {
+					r = canonErr(out.err)
+				}
+			case <-empty:
+				pendCh, pendCancel = ch, cancel
+				r = "pending"
+			case <-time.After(stepTimeout):
+				cancel()
+				r = "timeout"
 			}
+		case "get":
+			if pendCh != nil {
+				break
+			}
+			for len(empty) > 0 {
+				<-empty
+			}
+			ctx, cancel := context.WithCancel(context.Background())
 			ch := make(chan res, 1)
 			go func() { v, err := c.Get(ctx); ch <- res{v, err} }()
 			blocked := false
@@ -118,9 +178,16 @@ func execChannel(t *trace, script []string) {
 			}
 		}
 		t.Line(line, r)
+		if r != "skipped" && pendCh != nil && f[0] != "bget" {
+			t.Line("bgetres", pendResult())
+		}
 		if r != "skipped" {
 			t.Line("state", state())
 		}
+	}
+	if pendCh != nil {
+		pendCancel()
+		<-pendCh
 	}
 	// what is left in the source
 	var rest []int
@@ -146,6 +213,12 @@ func genChannel(r *rng.R, tier string, i int) []string {
 	var s []string
 	next := 1
 	for len(s) < n {
+		if r.Intn(12) == 0 {
+			// a Get left blocked while other goroutines use the Channel: make it block (drain what the model may hold by
+			// reading everything first is not needed — if something is available it simply returns a value)
+			s = append(s, "bget")
+			continue
+		}
 		switch r.Pick(28, 30, 10, 12, 6, 2, 1, 2) {
 		case 0:
 			s = append(s, fmt.Sprintf("send %d", next))
